@@ -23,6 +23,9 @@ func init() {
 			{"C17.R4", "q", "gc touches only Src/Dst; ranges", c17r4},
 			{"C17.R5", "q", "end clamped below the head and only decreasing", c17r5},
 			{"C17.R6", "q", "CancelGC only flags", c17r6},
+			{"C17.R7", "q", "the web entry point defaults to the configured age limit", c17r7},
+			{"C18.R4", "q", "shared: rewritten file cut and released on every exit", c18r4},
+			{"C18.R5", "q", "shared: earlier file appended to, never overwritten", c18r5},
 		},
 	})
 }
@@ -664,4 +667,76 @@ func isStoreState(fieldKey string) bool {
 		}
 	}
 	return false
+}
+
+// c17r7: gcCheckEnd substitutes Conf.NoGCDays only for a negative argument, so every
+// entry point must pass a negative default when the request does not name an age limit.
+func c17r7(c *Ctx) {
+	const R = "C17.R7"
+	if f := c.fn(R, "store.Bucket.gcCheckEnd"); f != nil {
+		info := f.Info()
+		ok := false
+		ast.Inspect(f.Decl.Body, func(x ast.Node) bool {
+			if as, isA := x.(*ast.AssignStmt); isA && len(as.Lhs) == 1 && prog.ObjOf(info, as.Lhs[0]) == f.Param(2) && prog.MentionsField(info, as.Rhs[0], "store.DataConfig.NoGCDays") {
+				for _, a := range f.GuardsAt(as) {
+					if prog.AtomCmp(a, token.LSS, prog.IsObj(info, f.Param(2)), prog.IsIntConst(info, 0)) {
+						ok = true
+					}
+				}
+			}
+			return true
+		})
+		c.check(ok, R, f.Key+": negative age limit ⇒ configured NoGCDays", f.Pos(), "if noGCDays < 0 { noGCDays = Conf.NoGCDays }", "gcCheckEnd no longer substitutes the configured age limit for a negative argument")
+		// the age test uses that value
+		used := false
+		ast.Inspect(f.Decl.Body, func(x ast.Node) bool {
+			if be, isB := x.(*ast.BinaryExpr); isB && be.Op == token.GTR && prog.Mentions(info, be.Y, f.Param(2)) {
+				if v := constIn(info, be.Y, 86400); v {
+					used = true
+				}
+			}
+			return true
+		})
+		c.check(used, R, f.Key+": file age compared with noGCDays·86400", f.Pos(), "now - ts > noGCDays*86400", "the age test no longer compares against noGCDays days")
+	}
+	f := c.fn(R, "gobeansdb.handleGC")
+	if f == nil {
+		return
+	}
+	info := f.Info()
+	gcs := f.CallsTo("store.HStore.GC")
+	if len(gcs) == 0 {
+		c.undec(R, f.Key, "call of HStore.GC not found")
+		return
+	}
+	arg := gcs[0].Expr.Args[3]
+	okDef := false
+	desc := "?"
+	for _, s := range f.SourcesAt(arg, gcs[0].Expr) {
+		if s.Kind == "call" && s.Key == "gobeansdb.getFormValueInt" && len(s.Call.Args) == 3 {
+			if name, isS := prog.ConstString(info, s.Call.Args[1]); isS && name == "nogcdays" {
+				if v, isC := prog.ConstInt(info, s.Call.Args[2]); isC {
+					desc = itoa(int(v))
+					if v < 0 {
+						desc = "-" + itoa(int(-v))
+						okDef = true
+					}
+				}
+			}
+		}
+	}
+	c.check(okDef, R, f.Key+": missing `nogcdays` ⇒ negative (use the configured limit)", gcs[0].Pos(), "default "+desc, "a GC request that does not name `nogcdays` is passed on with default "+desc+" instead of a negative value: gcCheckEnd then applies no age limit at all and young files are collected despite no_gc_days")
+}
+
+func constIn(info *types.Info, e ast.Expr, v int64) bool {
+	found := false
+	ast.Inspect(e, func(n ast.Node) bool {
+		if x, ok := n.(ast.Expr); ok {
+			if c, isC := prog.ConstInt(info, x); isC && c == v {
+				found = true
+			}
+		}
+		return true
+	})
+	return found
 }
